@@ -221,6 +221,11 @@ def main():
             cnt[(v["explorer"], v["kind"], json.dumps(w, sort_keys=True) if os.environ.get("VERIF_SUMMARY_FULL") else "")] += 1
         for (e, k, w), c in sorted(cnt.items(), key=lambda t: -t[1]):
             print(f"SUMMARY {c:6d} {e} {k} {w}")
+        firsts = {}
+        for v in violations:
+            firsts.setdefault((v["explorer"], v["kind"]), v)
+        for (e, k), v in firsts.items():
+            print(f"EXAMPLE {e} {k} case={core.short(v.get('case'), 300)}\n        {v['detail'][-700:]}")
     if violations:
         print(f"[{pid}] {len(violations)} violating cases recorded ({shown} replay files written)")
 
